@@ -195,4 +195,32 @@ def handleCommand : List Line := [
   ⟨2, .assign, (.var "r.debug"), (.var "true")⟩,
   ⟨2, .assign, (.var "r.redraw"), (.var "true")⟩]
 
+/-- `.hitTest` -/
+def hitTest : List Line := [
+  ⟨0, .define, (.var "v4"), (.lit "hitResult{v2:v2,v3:v3,w:v0.Widget}")⟩,
+  ⟨0, .assign, (.var "v1"), (.arg (.arg (.call (.var "append")) (.var "v1")) (.var "v4"))⟩,
+  ⟨0, .rangeS, (.pair (.var "_") (.var "v5")), (.var "v0.Children")⟩,
+  ⟨1, .ifS, (.un "!" (.arg (.arg (.call (.var "v5.containsPoint")) (.arg (.call (.var "int")) (.var "v2"))) (.arg (.call (.var "int")) (.var "v3")))), .none⟩,
+  ⟨2, .continueS, .none, .none⟩,
+  ⟨1, .define, (.var "v6"), (.bin "-" (.var "v2") (.arg (.call (.var "uint16")) (.var "v5.Origin.Col")))⟩,
+  ⟨1, .define, (.var "v7"), (.bin "-" (.var "v3") (.arg (.call (.var "uint16")) (.var "v5.Origin.Row")))⟩,
+  ⟨1, .assign, (.var "v1"), (.arg (.arg (.arg (.arg (.call (.var "hitTest")) (.var "v5.Surface")) (.var "v1")) (.var "v6")) (.var "v7"))⟩,
+  ⟨0, .returnS, (.var "v1"), .none⟩]
+
+/-- `SubSurface.containsPoint` -/
+def containsPoint : List Line := [
+  ⟨0, .returnS, (.bin "&&" (.bin "&&" (.bin "&&" (.bin ">=" (.var "v0") (.var "r.Origin.Col")) (.bin "<" (.var "v0") (.bin "+" (.var "r.Origin.Col") (.arg (.call (.var "int")) (.var "r.Surface.Size.Width"))))) (.bin ">=" (.var "v1") (.var "r.Origin.Row"))) (.bin "<" (.var "v1") (.bin "+" (.var "r.Origin.Row") (.arg (.call (.var "int")) (.var "r.Surface.Size.Height"))))), .none⟩]
+
+/-- `focusHandler.childHasFocus` -/
+def childHasFocus : List Line := [
+  ⟨0, .ifS, (.bin "==" (.var "v0.Widget") (.var "r.focused")), .none⟩,
+  ⟨1, .assign, (.var "r.path"), (.arg (.arg (.call (.var "append")) (.var "r.path")) (.var "v0.Widget"))⟩,
+  ⟨1, .returnS, (.var "true"), .none⟩,
+  ⟨0, .rangeS, (.pair (.var "_") (.var "v1")), (.var "v0.Children")⟩,
+  ⟨1, .ifS, (.un "!" (.arg (.call (.var "r.childHasFocus")) (.var "v1.Surface"))), .none⟩,
+  ⟨2, .continueS, .none, .none⟩,
+  ⟨1, .assign, (.var "r.path"), (.arg (.arg (.call (.var "append")) (.var "r.path")) (.var "v0.Widget"))⟩,
+  ⟨1, .returnS, (.var "true"), .none⟩,
+  ⟨0, .returnS, (.var "false"), .none⟩]
+
 end VaxisModel.Lemmas.VxfwBodyExpected
